@@ -19,10 +19,11 @@ EXPLANATION = (
     "0/1 indicator of `y == class`, same for the dev target); R-suffix (values_orders, input_dtypes, "
     "history and the kept features are renamed with the same append_class(feature, class), kept "
     "features are exactly binary_carver.features, and the final BaseDiscretizer is initialised from "
-    "those tables with features_casting)."
+    "those tables with features_casting; at transform every casted column f_ci is rebuilt from the raw "
+    "column f by an unfiltered X.assign)."
 )
 NOT_DECIDED = "equality of the produced columns with an independent BinaryCarver on data"
-FLOORS = {"R-forward-all": 13, "R-fresh-per-class": 3, "R-class-domain": 3, "R-suffix": 5}
+FLOORS = {"R-forward-all": 13, "R-fresh-per-class": 3, "R-class-domain": 3, "R-suffix": 7}
 
 EXCEPTIONS = {
     "copy": "literal True: the per-class carver must not transform the shared frame in place",
@@ -56,7 +57,15 @@ def rule_forward_all(ctx):
                 ok = v is not None and const_value(v) is True
             else:
                 src = defs.get(unparse(v)) if isinstance(v, ast.Name) else None
-                ok = v is not None and src is not None and "self.values_orders" in unparse(src) and isinstance(src, (ast.DictComp, ast.Call))
+                ok = False
+                if v is not None and src is not None:
+                    if isinstance(src, ast.DictComp) and len(src.generators) == 1:
+                        g = src.generators[0]
+                        # a complete copy: every (feature, order) pair, unfiltered
+                        ok = (unparse(g.iter) == "self.values_orders.items()" and not g.ifs and isinstance(g.target, ast.Tuple)
+                              and [unparse(e) for e in g.target.elts] == [unparse(src.key), unparse(src.value)])
+                    elif isinstance(src, ast.Call):
+                        ok = unparse(src) in ("dict(self.values_orders)", "dict(self.values_orders.items())", "self.values_orders.copy()")
             ctx.ob(R, c, ok, loc(fi, call), "exception: " + EXCEPTIONS[p] if ok else f"expected {EXCEPTIONS[p]}")
             continue
         ok = v is not None and unparse(v) == f"self.{p}"
@@ -153,7 +162,33 @@ def rule_suffix(ctx):
     ctx.ob(R, construct(fi, "final discretizer = the casted tables (+ features_casting, history)"), ok and hist, loc(fi))
 
 
+def rule_cast_features(ctx):
+    """At transform every kept casted column f_ci is a fresh duplicate of the raw column f."""
+    R = "R-suffix"
+    fi = ctx.repo.find_function(f"{F_BASE}::BaseDiscretizer._cast_features")
+    asg = [c for c in calls(fi, "assign")]
+    ok = False
+    if len(asg) == 1 and len(asg[0].keywords) == 1 and asg[0].keywords[0].arg is None and isinstance(asg[0].keywords[0].value, ast.DictComp):
+        dc = asg[0].keywords[0].value
+        gens = dc.generators
+        ok = (len(gens) == 2 and unparse(gens[0].iter) == "self.features_casting.items()" and not gens[0].ifs and not gens[1].ifs
+              and isinstance(gens[0].target, ast.Tuple) and unparse(gens[1].iter) == unparse(gens[0].target.elts[1])
+              and unparse(dc.key) == unparse(gens[1].target) and unparse(dc.value) == f"X[{unparse(gens[0].target.elts[0])}]"
+              and unparse(asg[0].func.value) == "X")
+    ctx.ob(R, construct(fi, "every casted column is (re)built from its raw column: X.assign(f_ci=X[f]) for all kept castings, unfiltered"), ok, loc(fi, asg[0] if asg else None),
+           "" if ok else "a casted column that is skipped or built from something else is discretized from stale / wrong values")
+    rets = [r for r in ast.walk(fi.node) if isinstance(r, ast.Return)]
+    par = None
+    ok2 = bool(asg) and bool(rets) and all(unparse(r.value) == "X" for r in rets)
+    for n in ast.walk(fi.node):
+        if isinstance(n, ast.Assign) and asg and n.value is asg[0]:
+            par = n
+    ok2 = ok2 and par is not None and unparse(par.targets[0]) == "X"
+    ctx.ob(R, construct(fi, "the frame with the duplicated columns is the one returned (raw columns untouched by assign)"), ok2, loc(fi))
+
+
 def check(ctx):
+    rule_cast_features(ctx)
     rule_forward_all(ctx)
     rule_fresh(ctx)
     rule_class_domain(ctx)
@@ -166,6 +201,8 @@ MUTANTS = [
     M("max_n_mod forwarded from the wrong attribute", [(F_MULTI, "                max_n_mod=self.max_n_mod,", "                max_n_mod=self.n_jobs,")], "R-forward-all", "max_n_mod"),
     M("kwargs (str_nan / str_default) not forwarded", [(F_MULTI, "                n_jobs=self.n_jobs,\n                **self.kwargs,\n            )\n\n            # fitting BinaryCarver", "                n_jobs=self.n_jobs,\n            )\n\n            # fitting BinaryCarver")], "R-forward-all", "kwargs"),
     M("per-class carver works in place", [(F_MULTI, "                copy=True,  # copying x to keep raw columns as is", "                copy=self.copy,  # copying x to keep raw columns as is")], "R-forward-all", "copy", quick=True),
+    M("only ordinal orders handed to the per-class carvers", [(F_MULTI, "raw_values_orders = {feature: order for feature, order in self.values_orders.items()}", "raw_values_orders = {feature: order for feature, order in self.values_orders.items() if feature in self.ordinal_features}")], "R-forward-all", "values_orders"),
+    M("existing casted columns are not rebuilt at transform", [(F_BASE, "                    for casted_feature in feature_casting\n                }", "                    for casted_feature in feature_casting\n                    if casted_feature not in X\n                }")], "R-suffix", "casted column"),
     M("fitted orders of the previous class reused", [(F_MULTI, "                values_orders=raw_values_orders,", "                values_orders=self.values_orders if n == 0 else casted_values_orders,")], "R-forward-all", "values_orders"),
     M("all classes kept", [(F_MULTI, "        y_classes = sorted(list(y_copy.unique()))[1:]  # removing one of the classes", "        y_classes = sorted(list(y_copy.unique()))  # removing one of the classes")], "R-class-domain", "classes ="),
     M("classes in order of appearance", [(F_MULTI, "        y_classes = sorted(list(y_copy.unique()))[1:]  # removing one of the classes", "        y_classes = list(y_copy.unique())[1:]  # removing one of the classes")], "R-class-domain", "classes ="),
